@@ -30,7 +30,7 @@ def ntc(d):
 
 def render_call(d):
     fam = d["fam"]
-    inner = inner_type(d).replace("T", "i32") if d.get("gen_decl") else inner_type(d)
+    inner = d.get("inner_use") or (inner_type(d).replace("T", "i32") if d.get("gen_decl") else inner_type(d))
     T = ntc(d)
     validated = d["vmode"] != "none"
     arms = []
@@ -376,7 +376,7 @@ def render_module(d):
     if d.get("module_override"):
         return PRELUDE + d["module_override"]
     src = PRELUDE + render_decl_only(d)
-    inner = inner_type(d).replace("T", "i32") if d.get("gen_decl") else inner_type(d)
+    inner = d.get("inner_use") or (inner_type(d).replace("T", "i32") if d.get("gen_decl") else inner_type(d))
     src += "pub type Inner = %s;\n" % inner
     src += "pub type NtC = Nt%s;\n" % d.get("gen_use", "")
     if d.get("const_fn") and d.get("const_inputs"):
